@@ -159,9 +159,9 @@ def compare(ctx: common.Ctx, prog: dict[str, Any], cfg: str, ref: dict[str, Any]
 def run(ctx: common.Ctx) -> None:
     quick = ctx.tier == "quick"
     scale = float(os.environ.get("VERIF_SCALE", "1"))
-    n_prog = max(1, round((8 if quick else 80) * scale))
+    n_prog = max(1, round((8 if quick else 12) * scale))
     n_units = 42 if quick else 50
-    n_corpus = 0 if quick else max(0, round(900 * scale))
+    n_corpus = 0 if quick else max(0, round(200 * scale))
     ctx.rule = ("generated 3-module programs (template units: one primitive/loop helper/call shape/class feature/generator/closure/"
                 "exception form x random operand representation; free-form units: random typed statement trees), each unit driven with "
                 "5-10 generated argument tuples, interpreted vs each compiled configuration.  non-trivial unit = final IR of its "
